@@ -236,3 +236,14 @@ def run_workers(fn, nworkers, *args):
             sys.stdout.write("HARNESS-ERROR worker %d:\n%s\n" % (i, e))
         sys.exit(2)
     return total
+
+
+def crash_head(err, n=5):
+    """The informative part of a sanitizer report: the error line and the first frames inside /repo."""
+    lines = err.splitlines()
+    out = []
+    for i, l in enumerate(lines):
+        if "runtime error:" in l or "ERROR: AddressSanitizer" in l or "SUMMARY:" in l:
+            out.append(l.strip()[:300])
+    frames = [l.strip()[:200] for l in lines if "/repo/" in l and l.strip().startswith("#")]
+    return " | ".join(out[:3] + frames[:n])
